@@ -10,6 +10,7 @@ import (
 	"net/url"
 
 	"github.com/gobwas/httphead"
+	"github.com/gobwas/pool/pbytes"
 	"github.com/gobwas/ws"
 	"github.com/gobwas/ws/wsflate"
 	"github.com/gobwas/ws/wsutil"
@@ -36,6 +37,7 @@ const (
 	exCompressed        // wsflate.CompressFrame / DecompressFrame
 	exCompiled          // server only: precompiled ping, then a message
 	exStack             // compressed message through the documented writer/reader stacks
+	exOwnBuf            // message through NewWriterBuffer over a buffer the session owns and reuses, DisableFlush (grows)
 )
 
 type exchange struct {
@@ -51,7 +53,7 @@ type exchange struct {
 // script is what both tasks of a session follow.
 type script struct {
 	Seed      uint64
-	SrvKind   int // 0 ws.Upgrade (DefaultUpgrader) 1 Upgrader{Protocol,Negotiate} 2 HTTPUpgrader
+	SrvKind   int // 0 ws.Upgrade (DefaultUpgrader) 1 Upgrader{Protocol,Negotiate} 2 HTTPUpgrader 3 Upgrader{ExtensionCustom zero-copy, OnBeforeUpgrade}
 	Flate     bool
 	Protocols []string
 	Steps     []exchange
@@ -64,8 +66,8 @@ var sizes = []int{0, 1, 10, 60, 65, 100, 125, 126, 127, 128, 200, 300, 1000, 409
 func makeScript(seed uint64) *script {
 	p := &prng{x: seed}
 	sc := &script{Seed: seed}
-	sc.SrvKind = p.intn(3)
-	sc.Flate = sc.SrvKind != 0 && p.intn(2) == 0
+	sc.SrvKind = p.intn(4)
+	sc.Flate = sc.SrvKind == 3 || (sc.SrvKind != 0 && p.intn(2) == 0)
 	if p.intn(2) == 0 {
 		sc.Protocols = []string{"chat", fmt.Sprintf("proto-%d", seed%7), "superchat"}[:1+p.intn(3)]
 	}
@@ -78,7 +80,7 @@ func makeScript(seed uint64) *script {
 		}
 		ex.PingLen = []int{0, 1, 59, 60, 63, 64, 100, 125}[p.intn(8)]
 		ex.BufSize = []int{16, 100, 128, 200, 512}[p.intn(5)]
-		kinds := []int{exMsg, exMsg, exWriter, exPingMsg}
+		kinds := []int{exMsg, exMsg, exWriter, exPingMsg, exOwnBuf}
 		if sc.Flate {
 			kinds = append(kinds, exCompressed, exCompressed, exStack)
 		}
@@ -151,10 +153,22 @@ type side struct {
 	tr     *transcript
 	flate  bool // negotiated
 	state  ws.State
+	own    []byte // a write buffer the session owns and reuses
 }
 
 func flateCompressor(w io.Writer) wsflate.Compressor {
 	return wsflate.DefaultHelper.Compressor(w)
+}
+
+// SharedFlateDialer is rebuilt by the driver before every run.
+var SharedFlateDialer *ws.Dialer
+
+// NewSharedDialer builds the dialer all compressing sessions of a run share:
+// its offer differs from what servers answer.
+func NewSharedDialer() *ws.Dialer {
+	offer := httphead.Option{Name: []byte("permessage-deflate")}
+	offer.Parameters.Set([]byte("client_max_window_bits"), nil)
+	return &ws.Dialer{Extensions: []httphead.Option{offer, wsflate.DefaultParameters.Option()}}
 }
 
 // runClient is the client task of a session.
@@ -162,7 +176,10 @@ func runClient(sc *script, conn net.Conn, tr *transcript) {
 	s := &side{sc: sc, conn: conn, client: true, tr: tr, state: ws.StateClientSide}
 	d := ws.Dialer{Protocols: sc.Protocols}
 	if sc.Flate {
-		d.Extensions = []httphead.Option{wsflate.DefaultParameters.Option()}
+		// Like an application would: one configured Dialer value (and its
+		// Extensions slice) shared by every connection it opens.
+		d = *SharedFlateDialer
+		d.Protocols = sc.Protocols
 	}
 	u, _ := url.Parse(fmt.Sprintf("ws://example.com/session/%d", sc.Seed%1000))
 	var (
@@ -239,6 +256,27 @@ func runServer(sc *script, conn net.Conn, tr *transcript) {
 			u.Negotiate = ext.Negotiate
 		}
 		hs, err = u.Upgrade(conn)
+	case 3:
+		var seen []httphead.Option // semantic copies, taken while the views are valid
+		u := ws.Upgrader{
+			// Zero-copy parsing: the options alias the request bytes, which the
+			// API allows ("valid until Upgrade returns").
+			ExtensionCustom: func(h []byte, dst []httphead.Option) ([]httphead.Option, bool) {
+				out, ok := httphead.ParseOptions(h, dst)
+				for _, o := range out[len(dst):] {
+					seen = append(seen, o.Clone())
+				}
+				return out, ok
+			},
+			OnBeforeUpgrade: func() (ws.HandshakeHeader, error) {
+				pbytes.Put(pbytes.GetLen(300)) // a scheduling point inside Upgrade
+				return nil, nil
+			},
+		}
+		hs, err = u.Upgrade(conn)
+		// The returned options are views that are no longer valid once Upgrade
+		// has returned: they are not looked at; the copies are.
+		hs.Extensions = seen
 	default:
 		br := bufio.NewReader(conn)
 		req, rerr := http.ReadRequest(br)
@@ -365,6 +403,16 @@ func (s *side) send(i int, ex exchange) bool {
 				f = ws.MaskFrameInPlace(f)
 			}
 			err = ws.WriteFrame(s.conn, f)
+		}
+	case exOwnBuf:
+		if s.own == nil {
+			s.own = make([]byte, 256)
+		}
+		w := wsutil.NewWriterBuffer(s.conn, s.state, opOf(ex), s.own)
+		w.DisableFlush()
+		_, err = w.Write(p)
+		if err == nil {
+			err = w.Flush()
 		}
 	case exStack:
 		var ms wsflate.MessageState
